@@ -106,6 +106,19 @@ fn pair_values(c: &Case, lookup: u32, i: u32, j: u32) -> (Val, Val, w::ValueReco
             w1 = w1.with_x_advance_device(wl::VariationIndex::new(o, inn));
             e1.dev[2] = Some(Dev::VarIdx { outer: o, inner: inn });
         }
+        4 => {
+            // both value records carry their own, distinct device tables: record 1 a Device
+            // (start sizes 9..=13), record 2 a VariationIndex, so that a record-2 offset linked to a
+            // record-1 object is always visible
+            let dv = device_values(i, j);
+            w1 = w1.with_x_advance_device(wl::Device::new(dv.0, dv.0 + 2, &dv.1));
+            e1.dev[2] = Some(expected_device(dv));
+            let xp2 = (j % 50) as i16 + 1;
+            let (o, inn) = ((j % 5) as u16 + 10, ((13 * i + 29 * j) % 3000) as u16);
+            w2 = w2.with_x_placement(xp2).with_x_placement_device(wl::VariationIndex::new(o, inn));
+            e2.v[0] = xp2;
+            e2.dev[0] = Some(Dev::VarIdx { outer: o, inner: inn });
+        }
         _ => {}
     }
     (e1, e2, w1, w2)
@@ -415,10 +428,16 @@ pub fn cases(tier: Tier) -> Vec<Case> {
             }
         }
     }
-    // PairPos format 2: m = 51 class2 classes
-    for fmt in 0..4u8 {
+    // PairPos format 2: m = 51 class2 classes (fmt 4: Device in record 1 AND VariationIndex in record 2)
+    for fmt in 0..5u8 {
         for cov in [0u8, 2] {
-            let ks: Vec<u32> = if quick { vec![3, 200, 320, 321, 322, 400, 645] } else { (2..=4).chain(150..=330).step_by(1).filter(|k| *k < 5 || k % 10 < 3 || *k > 200).chain(636..=650).chain([960, 970]).collect() };
+            if fmt == 4 && quick && cov == 2 {
+                continue;
+            }
+            let ks: Vec<u32> = if fmt == 4 {
+                // 8-byte cells: 408 bytes per class1 record, splits near k = 160 and 320
+                if quick { vec![3, 150, 170, 330] } else { (2..=3).chain(140..=175).chain(300..=340).step_by(1).filter(|k| *k < 5 || k % 3 == 0).collect() }
+            } else if quick { vec![3, 200, 320, 321, 322, 400, 645] } else { (2..=4).chain(150..=330).step_by(1).filter(|k| *k < 5 || k % 10 < 3 || *k > 200).chain(636..=650).chain([960, 970]).collect() };
             for k in ks {
                 for lookups in [1u8, 2] {
                     if quick && lookups == 2 && k != 200 && k != 321 {
@@ -462,7 +481,7 @@ pub fn run_all(run: &Run) {
     run.bound("public_path_cases", json!({
         "count": cs.len(),
         "PairPos1": "k first glyphs x 273 seconds; k sweeps around 1x/2x/3x 64 KiB; 4 value styles (xAdv | +yPla/xPla2 | +Device | +VariationIndex) x 3 coverage styles x {1,3} lookups",
-        "PairPos2": "k class1 x 51 class2 classes; same value styles; coverage {contiguous, runs with gaps}; {1,2} lookups",
+        "PairPos2": "k class1 x 51 class2 classes; same value styles plus one where record 1 has a Device and record 2 a VariationIndex in every cell; coverage {contiguous, runs with gaps}; {1,2} lookups",
         "MarkBasePos": "k marks (one class each) x m bases, every 17th base anchor null; anchor formats 1/2/3 (Device, VariationIndex); {1,2} lookups",
     }));
     let results: Vec<(usize, Option<Outcome>, f64)> = cs
